@@ -38,6 +38,12 @@ CHECKS = {
         text="For scan.steady_state/time_course/protocol/protocol_time_course and mc.* (incl. mc.scan_steady_state) over models with a derived variable, a readout and a parameter defined by an initial assignment over the initial values: each row's variables and fluxes must equal a separate simulation of a fresh model with that row's values, sit at the row's position under the row's index label, be identical across all schedules (sequential, pool with any worker count and completion order, rows <,=,> workers) and read orders; a failing row (poisoned integrator) must read as NaN state on the grid of a successful row without disturbing its neighbours.",
         note="Oracle = MxlPy's own Simulator on a fresh factory model nobody else touches. In-process SimPool shares module state with the parent (stub-fidelity self-test compares it with real pebble). Nothing is demanded of flux values of a NaN placeholder (state-independent rates legitimately evaluate).",
     ),
+    "C10": dict(
+        engine="views", category="exploration", design_ref="DESIGN.md §4.4",
+        technique="deterministic simulation of reader/mutator interleavings on shared state: seeded segment histories, then seeded sequences of view reads (all flag / concatenated / normalise combinations, repeats) interleaved with post-hoc parameter mutations of the shared model, first lazy read before or after a mutation; per-row oracle from a fresh model under independently recorded segment parameters",
+        text="For seeded multi-segment results (parameter updates, overrides and protocol steps between segments; models with derived variable/parameter, readout, parameter-defined and state-dependent computed coefficients, a surrogate): every public view equals, row by row, the values a fresh model gives at that row's state and time under its segment's parameters - also when the user changed the model's parameters after the simulation and before (or between) reads; N(state) x reported fluxes = reported derivatives; concatenated = per-segment list stacked; producers/consumers = fluxes with positive/negative coefficient, scaled by the row's coefficient on request; normalise divides by the scalar / per-segment / per-row factor; a repeated read equals the first bit for bit.",
+        note="Model evaluation on a fresh model is trusted (C01/C13). Segment parameters are recorded by the harness itself, not read from the result. Coefficient signs fixed across segments; >= 2 rows per segment.",
+    ),
     "C14": dict(
         engine="simtime", category="exploration", design_ref="DESIGN.md §4.2 (C14 additions)",
         technique="deterministic simulation: seeded protocol layouts (1-4 steps, unequal durations, repeated values, ragged steps) started on fresh and continued simulators (after simulate, override, steady state, clear), reference model with exact switching times; exact point-set oracle for the time-course form; per-row flux oracle",
@@ -77,6 +83,7 @@ ENGINES = [
     {"name": "mca", "path": "simkit/machines/mca.py", "serves_properties": ["C18"], "kind_free_text": "MCA machine: sequential vs SimPool schedules, snapshots, analytic power-law sensitivities"},
     {"name": "scans", "path": "simkit/machines/scans.py", "serves_properties": ["C09"], "kind_free_text": "scan-schedule machine: SimPool (simkit/simpool.py), Faulty/ExactLinear integrators, independent-row oracle"},
     {"name": "simtime", "path": "simkit/machines/simtime.py", "serves_properties": ["C04", "C14"], "kind_free_text": "simulator-history machine: reference model of time keeping, closed-form families (simkit/models.py), integrator seam (simkit/integrators.py)"},
+    {"name": "views", "path": "simkit/machines/views.py", "serves_properties": ["C10"], "kind_free_text": "result-view machine: reader/mutator interleavings on a shared Simulation/Model, per-row fresh-model oracle"},
     {"name": "steady", "path": "simkit/machines/steady.py", "serves_properties": ["C15"], "kind_free_text": "steady-state machine: FaultyOde stepper seam, relaxation-time sweep, scan rows without steady state"},
     {"name": "edits", "path": "simkit/machines/edits.py", "serves_properties": ["C03"], "kind_free_text": "edit-history machine: online op generator, snapshot/rebuild refinement oracle"},
 ]
